@@ -12,6 +12,7 @@ import Dblib.Model.ChanTxDriver
 import Dblib.Model.Wire
 import Dblib.Props.C01
 import Dblib.Props.C15
+import Dblib.Props.C16
 import Dblib.Props.C18
 import Dblib.Props.C19
 import Dblib.Props.C20
